@@ -60,6 +60,15 @@ impl DetectProp for C10 {
         if idx % 16 == 3 || idx % 16 == 11 {
             c = declared_tied_case(rng);
         }
+        if idx % 16 == 13 || idx % 16 == 6 {
+            // chunks that read the same under a single-byte page and under an encoding tied to one language
+            c.bytes = ascii_with_double_byte_pairs(rng);
+            c.sett = Sett::default();
+            if idx % 32 == 6 {
+                c.sett.incl = vec!["windows-1252".into(), "big5".into(), "euc-kr".into(), "gbk".into(), "shift_jis".into()];
+            }
+            c.tag = "ascii-chunks-double-byte-pairs".into();
+        }
         c
     }
     fn directed(&self, thorough: bool) -> Vec<Case> {
